@@ -1,6 +1,7 @@
 package main
 
 import (
+	"bytes"
 	"context"
 	"fmt"
 	"io"
@@ -332,6 +333,7 @@ func init() {
 		// the same bytes delivered in small pieces (a re-chunking proxy, a slow connection) decode to the same messages
 		fragmentedDelivery(o, r, &id)
 		lostReplies(o, &id)
+		abandonedThenNext(o, &id)
 		o.Shard = 30
 	}
 }
@@ -630,5 +632,117 @@ func lostReplies(o *hx.Out, id *int) {
 			ts.Close()
 			base.CloseIdleConnections()
 		}
+	}
+}
+
+// gatedReply is a unary reply body that hands out its first part at once and the rest when released
+type gatedReply struct {
+	first, rest []byte
+	release     chan struct{}
+	state       int
+}
+
+func (g *gatedReply) Read(p []byte) (int, error) {
+	switch {
+	case len(g.first) > 0:
+		n := copy(p, g.first)
+		g.first = g.first[n:]
+		return n, nil
+	case g.state == 0:
+		g.state = 1
+		<-g.release
+		fallthrough
+	case len(g.rest) > 0:
+		n := copy(p, g.rest)
+		g.rest = g.rest[n:]
+		return n, nil
+	}
+	return 0, io.EOF
+}
+func (g *gatedReply) Close() error { return nil }
+
+type gatedReplyRT struct{ bodies chan *gatedReply }
+
+func (t gatedReplyRT) RoundTrip(rq *http.Request) (*http.Response, error) {
+	if rq.Body != nil {
+		io.Copy(io.Discard, rq.Body)
+		rq.Body.Close()
+	}
+	h := http.Header{}
+	h.Set("Content-Type", httpgrpc.UnaryRpcContentType_V1)
+	return &http.Response{StatusCode: 200, Status: "200 OK", Proto: "HTTP/1.1", ProtoMajor: 1, ProtoMinor: 1, Header: h, ContentLength: -1, Body: <-t.bodies, Request: rq}, nil
+}
+
+// abandonedThenNext: a unary call abandoned by its caller (deadline) while its reply is still on its way must
+// leave nothing behind that a LATER call could receive: the later call's message arrives exactly once, intact,
+// also when the caller reuses its response object and when the abandoned call's reply turns up meanwhile
+func abandonedThenNext(o *hx.Out, id *int) {
+	// in-process: the abandoned call's handler answers after the next call has completed into the same object
+	for rounds := 0; rounds < 3; rounds++ {
+		release := make(chan struct{})
+		finished := make(chan struct{}, 4)
+		ipc := &inprocgrpc.Channel{}
+		ipc.RegisterService(hx.Desc(hx.SvcName), &hx.Svc{Unary: func(ctx context.Context, req *hx.Msg) (*hx.Msg, error) {
+			defer func() { finished <- struct{}{} }()
+			if req.Count == 1 {
+				<-release
+				return &hx.Msg{Count: 111, Payload: []byte("answer to the abandoned call")}, nil
+			}
+			return &hx.Msg{Count: 222, Payload: []byte("answer to the second call")}, nil
+		}})
+		resp := &hx.Msg{}
+		ctx, cancel := context.WithTimeout(context.Background(), 30*time.Millisecond)
+		e1 := ipc.Invoke(ctx, "/verif.Svc/U", &hx.Msg{Count: 1}, resp)
+		cancel()
+		e2 := ipc.Invoke(context.Background(), "/verif.Svc/U", &hx.Msg{Count: 2}, resp)
+		<-finished
+		want := proto.Clone(resp)
+		close(release)
+		select {
+		case <-finished:
+		case <-time.After(time.Second):
+		}
+		time.Sleep(20 * time.Millisecond)
+		ok := e1 != nil && e2 == nil && want.(*hx.Msg).Count == 222 && proto.Equal(resp, want)
+		d := map[string]interface{}{"transport": "inprocgrpc", "kind": "unary", "scenario": "call 1 times out while its handler runs; call 2 succeeds into the same response object; then call 1's handler returns",
+			"first_call": fmt.Sprint(e1), "second_call": fmt.Sprint(e2), "response_after_second_call": want.(*hx.Msg).Count, "response_at_the_end": resp.Count}
+		if !ok {
+			o.Violate("the message a unary call delivered was replaced by the answer to an earlier, abandoned call", d, resp.Count, 222)
+		}
+		*id++
+		goChecked(o, "abandoned_then_next_inprocgrpc", *id, ok, d)
+	}
+	// HTTP, scripted transport: the abandoned call's reply body turns up while the next call reads its own
+	mA, _ := proto.Marshal(&hx.Msg{Count: 111, Payload: bytes.Repeat([]byte("A"), 3000)})
+	mB, _ := proto.Marshal(&hx.Msg{Count: 222, Payload: bytes.Repeat([]byte("B"), 5000)})
+	for rounds := 0; rounds < 6; rounds++ {
+		runtime.GC()
+		runtime.GC()
+		bodies := make(chan *gatedReply, 2)
+		r1 := &gatedReply{first: append([]byte{}, mA[:10]...), rest: append([]byte{}, mA[10:]...), release: make(chan struct{})}
+		r2 := &gatedReply{first: append([]byte{}, mB[:2000]...), rest: append([]byte{}, mB[2000:]...), release: make(chan struct{})}
+		bodies <- r1
+		bodies <- r2
+		base, _ := url.Parse("http://scripted.invalid/")
+		ch := &httpgrpc.Channel{BaseURL: base, Transport: gatedReplyRT{bodies}}
+		ctx, cancel := context.WithTimeout(context.Background(), 30*time.Millisecond)
+		e1 := ch.Invoke(ctx, "/verif.Svc/U", &hx.Msg{Count: 1}, &hx.Msg{})
+		cancel()
+		go func() {
+			time.Sleep(20 * time.Millisecond) // call 2 is in the middle of its body
+			close(r1.release)                 // the rest of the abandoned reply turns up
+			time.Sleep(20 * time.Millisecond)
+			close(r2.release)
+		}()
+		out := &hx.Msg{}
+		e2 := ch.Invoke(context.Background(), "/verif.Svc/U", &hx.Msg{Count: 2}, out)
+		ok := e1 != nil && e2 == nil && proto.Equal(out, &hx.Msg{Count: 222, Payload: bytes.Repeat([]byte("B"), 5000)})
+		d := map[string]interface{}{"transport": "httpgrpc (scripted RoundTripper)", "kind": "unary", "scenario": "call 1's deadline passes after 10 bytes of its reply; the rest arrives while call 2 is reading its own reply",
+			"first_call": fmt.Sprint(e1), "second_call": fmt.Sprint(e2), "second_call_received_count": out.Count, "second_call_received_payload_bytes": len(out.Payload)}
+		if !ok {
+			o.Violate("a unary call received something other than its own reply after an earlier call was abandoned", d, out.Count, 222)
+		}
+		*id++
+		goChecked(o, "abandoned_then_next_httpgrpc", *id, ok, d)
 	}
 }
